@@ -210,10 +210,9 @@ example : ∃ s : Sys, (s.conn 7).tx = some [("ping", [])] ∧ (s.conn 7).txFail
 
 /-! ## 4. the commands inside EXEC are run by the same runner as outside -/
 
-theorem runInner_eq_runCommand (mode : Mode) (c : Nat) (sig : Sig) (raw : List Bytes) (h : sig.name ≠ "exec")
-    (hs : scriptNames.contains sig.name = false) :
+theorem runInner_eq_runCommand (mode : Mode) (c : Nat) (sig : Sig) (raw : List Bytes) (h : sig.name ≠ "exec") :
     runInner mode c sig raw = runCommand mode c sig raw false :=
-  runInner_eq_runCommand' mode c sig raw h hs
+  runInner_eq_runCommand' mode c sig raw h
 
 example : ∃ sig : Sig, SigTable.find "get" = some sig ∧ sig.name ≠ "exec" := ⟨_, rfl, by decide⟩
 
@@ -280,8 +279,9 @@ theorem after_exec_normal_mode (s : Sys) (inner : Inner) (c : Nat) (cis : List C
 /-- the side condition of `after_exec_normal_mode` holds for the real inner runner on every REGULAR command -/
 theorem runInner_regular_keeps_normal (mode : Mode) (c : Nat) (sig : Sig) (raw : List Bytes) (body : Body)
     (h : Cmd.regular sig.name = some body) (s : Sys) (c' : Nat) (hn : (s.conn c').normal) :
-    ((runInner mode c sig raw s).2.conn c').normal :=
-  runWith_regular_normal _ mode c sig raw false h s c' hn
+    ((runInner mode c sig raw s).2.conn c').normal := by
+  rw [runInner_regular_eq mode c sig raw h]
+  exact runWith_regular_normal _ mode c sig raw false h s c' hn
 
 /-- hence: a queue of regular commands -/
 theorem after_exec_normal_mode_regular (s : Sys) (mode : Mode) (c : Nat) (cis : List CI)
